@@ -22,6 +22,7 @@ import (
 	"github.com/jilio/ebu/state"
 	"github.com/jilio/ebu/stores/sqlite"
 
+	"verif/harness/busdrv"
 	"verif/harness/core"
 )
 
@@ -358,7 +359,7 @@ var reRaceFrame = regexp.MustCompile(`(?m)^\s+(github\.com/jilio/ebu[^\s(]*)`)
 
 // C03: concurrent use of the API is free of data races and deadlocks.
 func c03(r *core.Run) {
-	r.Rule = "TLC deadlock check of Locks.tla (every lock of ebu as a writer-preferring RWMutex / mutex resource, every public operation as its acquire / release sequence with user-code points where re-entrant operations start; 2 goroutines, nesting depth 2) plus the two design mutants that must deadlock (the documented self-publishing Sequential handler, read lock held during dispatch); every (callback kind x re-entrant operation) pattern executed on the real persistent bus against queued writers under a 10 s watchdog; free-running mixes of all call kinds (publish, subscribe, unsubscribe, clear, queries, Wait, Replay, upcast registration, SubscribeWithReplay, memory and SQLite stores, materializer) with no harness synchronisation under the Go race detector at GOMAXPROCS 2/4/16; the data-race clause is decided by the race detector, not by TLA+; a case is one pattern or one stress run"
+	r.Rule = "TLC deadlock check of Locks.tla (every lock of ebu as a writer-preferring RWMutex / mutex resource, every public operation as its acquire / release sequence with user-code points where re-entrant operations start; 2 goroutines, nesting depth 2) plus the two design mutants that must deadlock (the documented self-publishing Sequential handler, read lock held during dispatch); every (callback kind x re-entrant operation) pattern executed on the real persistent bus against queued writers under a 10 s watchdog; free-running mixes of all call kinds (publish, subscribe, unsubscribe, clear, queries, Wait, Replay, upcast registration, SubscribeWithReplay, memory and SQLite stores, materializer) with no harness synchronisation under the Go race detector at GOMAXPROCS 2/4/16; recorded multi-goroutine executions (busy Async+Sequential handlers, contexts cancelled behind queued dispatches, Wait, panics, store) under the race detector, validated against BusTrace.tla with a watchdog; the data-race clause is decided by the race detector, not by TLA+; a case is one pattern, script or stress run"
 	r.Assume = append(r.Assume, "data races are observed by the Go race detector on the executed schedules only")
 	r.MustHold(core.TLCOpts{Module: "MCLocks", Timeout: 30 * time.Minute})
 	r.MustFail(core.TLCOpts{Module: "MCLocks", Config: "MCLocks_mut_selfpublish.cfg"}, "deadlock")
@@ -369,6 +370,14 @@ func c03(r *core.Run) {
 		r.Infra("race-detector build of the harness is missing")
 		return
 	}
+	// recorded multi-goroutine executions with every kind of handler, re-entrant bodies, contexts cancelled behind
+	// queued dispatches, Wait and Shutdown, under the race detector: a call that does not return is a deadlock, and the
+	// recorded history must be a behaviour of Bus.tla (whose Wait / Shutdown / Sequential-turn steps only exist when the
+	// code has released what it holds)
+	lg := busdrv.GenOpts{Procs: 3, OpsPerProc: [2]int{4, 9}, Types: 2, Async: 0.55, Once: 0.15, Seq: 0.6, Filt: 0.1, Panics: 0.15, Body: 0.2, CtxBody: 0.2, Yield: true, Sleep: 400,
+		Kinds: []string{"sub", "sub", "unsub", "pub", "pub", "pub", "pub", "pub", "count", "cancel", "wait", "clear"},
+		Ctxs:  []string{"c1", "c2"}, Cfgs: []busdrv.Cfg{plainCfg, {PanicH: true}, {Obs: true}, {Store: true, PTimeout: true}}}
+	stress(r, "c03-recorded", lg, r.Pick(60, 1200), []int{2, 16}, 303, classifyBus, "no-deadlock")
 	runs := r.Pick(3, 12)
 	for _, mp := range []int{2, 4, 16} {
 		for i := 0; i < runs; i++ {
